@@ -458,7 +458,13 @@ class PoolManager(RequestMethods):
 
         retries = kw.get("retries")
         if not isinstance(retries, Retry):
-            retries = Retry.from_int(retries, redirect=redirect)
+            # Without a per-request policy the one given to the constructor
+            # applies, as it does for the pools made from ``connection_pool_kw``.
+            retries = Retry.from_int(
+                retries,
+                redirect=redirect,
+                default=self.connection_pool_kw.get("retries"),
+            )
 
         # Strip headers marked as unsafe to forward to the redirected location.
         # Check remove_headers_on_redirect to avoid a potential network call within
